@@ -1,6 +1,8 @@
 /-
 Model of the Elasticsearch bulk handler (C15), mirroring pkg/es/writer/esBulkHandler.go HandleBulkBody
-(after the two `fix:` commits: loop exit only when the body is exhausted; oversize flag per action, 413 counts as error).
+(after the two `fix:` commits: loop exit only when the body is exhausted; oversize flag per action, 413 counts as error;
+and with the repairs c15-3 — the items of a batch the store refused are answered 503 — and c15-5 — a `.kibana`
+document that nothing stores is answered 400; the behaviour before them is `Version.old`).
 
 Part 1, lines 156-263 — the per-line loop: action parsing, per-item status, the flags `success`,
 `overallError`, `maxRecordSizeExceeded` with their ACTUAL lifetimes, the loop-exit test on the remaining bytes,
@@ -10,15 +12,18 @@ Part 2, lines 265-277 + ProcessIndexRequestPle (lines 369-425) — what happens 
 loop: `utils.ConvertSliceToMap(allPLEs, GetIndexName)` groups them into one batch per index name (each batch in
 slice order), every batch is handed to `ProcessIndexRequestPle`, which re-checks that every event of the batch
 carries the batch's index name, re-checks the name, resolves an alias to the real index
-(`AddAndGetRealIndexName`) and calls the store (`writer.AddEntryToInMemBuf`).  An error of that call is ONLY
-LOGGED (line 274, `// TODO: update atleastOneSuccess`): the items and the `errors` flag were fixed in the loop.
+(`AddAndGetRealIndexName`) and calls the store (`writer.AddEntryToInMemBuf`).  When that call returns an error the
+item of every event of the batch (`itemOfPLE`) is overwritten with a 503 item, `errors` becomes true and the
+events are taken off `numCreated` (the request as a whole fails when no created item is left).  Before c15-3
+the error was only logged (`// TODO: update atleastOneSuccess`): `Version.old`.
 The store is a PARAMETER (`Env.store`), so are the index-name predicate and the alias table.
 Go iterates the map of batches in arbitrary order; the model lists the batches in order of first occurrence —
 every theorem is per index, and the suites print per index.
 
 A body is the list of its lines (split at '\n'); each line is abstracted to what the loop looks at.  An index
-name is a number (its slot in the request's table of names).  `.kibana` index names (a hook-only path that never
-produces a PLE) are outside the model.
+name is a number (its slot in the request's table of names).  `.kibana` index names never produce a PLE: the
+document goes to `EsBulkIngestInternalHook` only; the model is the build without that hook (both callers pass
+useIngestHook=false), where the item fails (before c15-5 it was answered created and the document dropped).
 Core Lean only.
 -/
 namespace SigModel.Bulk
@@ -37,14 +42,28 @@ structure Line where
 deriving Repr, DecidableEq
 
 inductive Status where
-  | created   -- 201
-  | failed    -- 400
-  | tooLarge  -- 413
+  | created      -- 201
+  | failed       -- 400
+  | tooLarge     -- 413
+  | unavailable  -- 503: the store refused the batch of the item's index
 deriving Repr, DecidableEq
+
+/-- which code: the repaired one, or the behaviours before the repairs c15-3 / c15-5 -/
+structure Version where
+  kibanaAcked : Bool          -- before c15-5: a `.kibana` document was answered created and dropped
+  storeErrorIgnored : Bool    -- before c15-3: an error of the store call was only logged
+deriving Repr, DecidableEq
+
+def Version.fixed : Version := { kibanaAcked := false, storeErrorIgnored := false }
+def Version.old : Version := { kibanaAcked := true, storeErrorIgnored := true }
+
+/-- an accepted event: (index name of its action, document id, position of its response item) -/
+abbrev Ple := Nat × Nat × Nat
 
 /-- what the handler's surroundings decide: the parameters of the model -/
 structure Env where
   valid   : Nat → Bool                -- `vtable.IsValidIndexName` on the index name
+  kibana  : Nat → Bool                -- `strings.Contains(indexName, ".kibana")`
   resolve : Nat → Nat                 -- `AddAndGetRealIndexName`: an alias is replaced by its index, any other name is kept
   store   : Nat → List Nat → Bool     -- `writer.AddEntryToInMemBuf(real index, documents)`: true = no error
 
@@ -64,15 +83,16 @@ structure St where
   success : Bool := false
   maxExceeded : Bool := false
   items : List Status := []          -- in order
-  ples : List (Nat × Nat) := []      -- allPLEs: (index name of the action, document id), in order
+  ples : List Ple := []              -- allPLEs with `itemOfPLE`, in order
   processed : Nat := 0
+  numCreated : Nat := 0
 deriving Repr, DecidableEq
 
 /-- code constant `MAX_RECORD_SIZE` (tied by go2lean facts) -/
 def maxRecordSize : Nat := 63000
 
 /-- one iteration of the `for` loop after the exit test (`maxRecordSizeExceeded` is reset per action) -/
-def stepAction (env : Env) (s0 : St) (line : Line) (rest : List Line) : St × List Line :=
+def stepAction (v : Version) (env : Env) (s0 : St) (line : Line) (rest : List Line) : St × List Line :=
   let s := { s0 with maxExceeded := false }
   let (s1, rest1) : St × List Line :=
     match line.kind with
@@ -82,7 +102,10 @@ def stepAction (env : Env) (s0 : St) (line : Line) (rest : List Line) : St × Li
       else if !env.valid line.idx then ({ s with success := false }, rest')
       else if doc.len < maxRecordSize then
         let s' := { s with processed := s.processed + 1, success := true }
-        if doc.docOk then ({ s' with ples := s'.ples ++ [(line.idx, doc.id)] }, rest')
+        if env.kibana line.idx then
+          -- no PLE; nothing stores the document (before c15-5: created unless the JSON decoder failed — `docOk`)
+          if v.kibanaAcked && doc.docOk then (s', rest') else ({ s' with success := false }, rest')
+        else if doc.docOk then ({ s' with ples := s'.ples ++ [(line.idx, doc.id, s'.items.length)] }, rest')
         else ({ s' with success := false }, rest')
       else ({ s with success := false, maxExceeded := true }, rest')
     | .update =>
@@ -92,19 +115,19 @@ def stepAction (env : Env) (s0 : St) (line : Line) (rest : List Line) : St × Li
   if !s1.success then
     if s1.maxExceeded then ({ s1 with overallError := true, items := s1.items ++ [.tooLarge] }, rest1)
     else ({ s1 with overallError := true, items := s1.items ++ [.failed] }, rest1)
-  else ({ s1 with items := s1.items ++ [.created] }, rest1)
+  else ({ s1 with items := s1.items ++ [.created], numCreated := s1.numCreated + 1 }, rest1)
 
-def loop (env : Env) : Nat → St → List Line → St
+def loop (v : Version) (env : Env) : Nat → St → List Line → St
   | 0, s, _ => s
   | fuel+1, s, body =>
     let (line, rest) := readLine body
     if line.len == 0 && remEmpty rest then s
     else
-      let (s', rest') := stepAction env s line rest
-      loop env fuel s' rest'
+      let (s', rest') := stepAction v env s line rest
+      loop v env fuel s' rest'
 
 /-- the loop of `HandleBulkBody` on a body given as its lines -/
-def handle (env : Env) (body : List Line) : St := loop env (body.length + 1) {} body
+def handle (v : Version) (env : Env) (body : List Line) : St := loop v env (body.length + 1) {} body
 
 /-! ### after the loop: batches per index, ProcessIndexRequestPle, the store -/
 
@@ -114,7 +137,7 @@ def keysOf : List Nat → List Nat
   | k :: r => k :: (keysOf r).filter (· != k)
 
 /-- `utils.ConvertSliceToMap(allPLEs, ple.GetIndexName)`: per index name the events carrying it, in slice order -/
-def batches (ples : List (Nat × Nat)) : List (Nat × List (Nat × Nat)) :=
+def batches (ples : List Ple) : List (Nat × List Ple) :=
   (keysOf (ples.map (·.1))).map (fun k => (k, ples.filter (·.1 == k)))
 
 /-- how a call of `ProcessIndexRequestPle` ends -/
@@ -126,40 +149,64 @@ inductive PleResult where
 deriving Repr, DecidableEq
 
 /-- `ProcessIndexRequestPle(indexNameIn, pleArray)` -/
-def processPle (env : Env) (idx : Nat) (batch : List (Nat × Nat)) : PleResult :=
+def processPle (env : Env) (idx : Nat) (batch : List Ple) : PleResult :=
   if batch.any (·.1 != idx) then .mismatch
   else if !env.valid idx then .invalidIndex
   else
     let real := env.resolve idx
-    if env.store real (batch.map (·.2)) then .stored real else .refused real
+    if env.store real (batch.map (·.2.1)) then .stored real else .refused real
 
 /-- one iteration of `for indexName, plesInBatch := range pleBatches` -/
 structure Call where
   idx  : Nat                   -- the index name the batch is processed under
-  docs : List (Nat × Nat)      -- the events of the batch, each with the index name IT carries
+  docs : List Ple              -- the events of the batch, each with the index name IT carries
   res  : PleResult
 deriving Repr, DecidableEq
-
-structure Resp where
-  st    : St                   -- `items`, `errors` and `processedCount` are those of the loop: no call changes them
-  calls : List Call
-
-/-- `HandleBulkBody` -/
-def handleReq (env : Env) (body : List Line) : Resp :=
-  let st := handle env body
-  { st := st, calls := (batches st.ples).map (fun kb => { idx := kb.1, docs := kb.2, res := processPle env kb.1 kb.2 }) }
 
 def Call.accepted (c : Call) : Bool :=
   match c.res with
   | .stored _ => true
   | _ => false
 
+/-- `for _, ple := range plesInBatch { items[itemOfPLE[ple]] = <503 item> }` -/
+def markUnavailable (items : List Status) (batch : List Ple) : List Status :=
+  batch.foldl (fun its p => its.set p.2.2 .unavailable) items
+
+structure Resp where
+  st    : St                   -- the state the loop left
+  calls : List Call
+  items : List Status          -- response["items"]
+  errors : Bool                -- response["errors"]
+  numCreated : Nat             -- the request as a whole fails ("all bulk requests failed") when this is 0
+
+def callsOf (env : Env) (ples : List Ple) : List Call :=
+  (batches ples).map (fun kb => { idx := kb.1, docs := kb.2, res := processPle env kb.1 kb.2 })
+
+/-- `HandleBulkBody` -/
+def handleReqV (v : Version) (env : Env) (body : List Line) : Resp :=
+  let st := handle v env body
+  let calls := callsOf env st.ples
+  if v.storeErrorIgnored then
+    { st := st, calls := calls, items := st.items, errors := st.overallError, numCreated := st.numCreated }
+  else
+    let failed := calls.filter (fun c => !c.accepted)
+    { st := st, calls := calls
+      items := failed.foldl (fun its c => markUnavailable its c.docs) st.items
+      errors := st.overallError || !failed.isEmpty
+      numCreated := failed.foldl (fun n c => n - c.docs.length) st.numCreated }
+
+/-- the code as repaired -/
+def handleReq (env : Env) (body : List Line) : Resp := handleReqV Version.fixed env body
+
+/-- the code before the repairs c15-3 and c15-5 -/
+def handleReqOld (env : Env) (body : List Line) : Resp := handleReqV Version.old env body
+
 /-- the documents the store took for request index name `x`, in the order it got them -/
 def Resp.storedUnder (r : Resp) (x : Nat) : List Nat :=
-  ((r.calls.filter (fun c => c.idx == x && c.accepted)).flatMap (·.docs)).map (·.2)
+  ((r.calls.filter (fun c => c.idx == x && c.accepted)).flatMap (·.docs)).map (·.2.1)
 
 /-- everything handed to `ProcessIndexRequestPle` under index name `x` -/
-def Resp.handedUnder (r : Resp) (x : Nat) : List (Nat × Nat) :=
+def Resp.handedUnder (r : Resp) (x : Nat) : List Ple :=
   (r.calls.filter (·.idx == x)).flatMap (·.docs)
 
 end SigModel.Bulk
